@@ -178,14 +178,25 @@ def parse_kani_log(text):
     return r
 
 
-def kani_cmd(h, target_dir):
+def kani_cmd(h, target_dir, playback=False):
     full = module_path(h["module"]) + "::" + h["name"]
     cmd = ["cargo", "kani", "--no-default-features"]
     if h.get("features"):
         cmd += ["--features", ",".join(h["features"])]
-    cmd += ["--target-dir", target_dir, "--harness", full, "--exact", "--no-memory-safety-checks",
-            "-Z", "concrete-playback", "--concrete-playback=print", "-Z", "stubbing"]
+    cmd += ["--target-dir", target_dir, "--harness", full, "--exact", "--no-memory-safety-checks", "-Z", "stubbing"]
+    if playback:
+        # only on the second pass, after a property failed: asking CBMC for traces (also of every
+        # satisfied cover) costs many GB on large formulas (RC4: 3.5 M clauses passed in 225 s without
+        # traces and exceeded 20 GB with them)
+        cmd += ["-Z", "concrete-playback", "--concrete-playback=print"]
     cmd += h.get("kani_args", [])
+    # CBMC options (must come last).  --max-field-sensitivity-array-size: CBMC constant-propagates
+    # reads from arrays / heap blocks only up to this many elements (default 64); lopdf's dictionaries,
+    # vectors of objects and 256-entry tables need far more, otherwise every length read back from the
+    # heap is "symbolic" and loops are unrolled to the bound (10 GB blow-ups became 20 s).
+    # --unwindset memcmp.0:N bounds the C library memcmp loop separately from the harness bound.
+    cbmc = ["--max-field-sensitivity-array-size", str(int(os.environ.get("VERIF_FS") or h.get("fs_size", 4096))), "--unwindset", "memcmp.0:%d" % h.get("memcmp_unwind", 40)]
+    cmd += ["-Z", "unstable-options", "--cbmc-args"] + cbmc + h.get("cbmc_args", [])
     return cmd
 
 
@@ -231,10 +242,19 @@ class Run:
         try:
             logfile = os.path.join(d, "logs", h["name"] + ".log")
             rc, killed, wall, peak = run_capped(kani_cmd(h, os.path.join(d, "target")), d, timeout_s, mem, logfile)
+            text = open(logfile, errors="replace").read()
+            res = parse_kani_log(text)
+            if not killed and res["failed"]:
+                # second pass: same query with trace generation, to obtain the counterexample values
+                logfile2 = os.path.join(d, "logs", h["name"] + ".playback.log")
+                rc2, killed2, wall2, peak2 = run_capped(kani_cmd(h, os.path.join(d, "target"), playback=True), d, timeout_s, mem, logfile2)
+                text2 = open(logfile2, errors="replace").read()
+                res2 = parse_kani_log(text2)
+                res["playback"] = res2["playback"]
+                wall += wall2
+                peak = max(peak, peak2)
         finally:
             self.sem.release(w)
-        text = open(logfile, errors="replace").read()
-        res = parse_kani_log(text)
         res.update({"name": h["name"], "rc": rc, "killed": killed, "wall_s": round(wall, 1), "peak_rss_gb": peak, "log": logfile})
         # classification
         covers_ok = bool(res["covers"]) and all(c["status"] == "SATISFIED" for c in res["covers"])
@@ -347,7 +367,7 @@ def cmd_check(args):
     if pid != "DEV":
         hs = registry.select(pid, tier)
     else:
-        hs = [h for h in registry.HARNESSES if tier == "thorough" or "quick" in h["props"].values()]
+        hs = [h for h in registry.HARNESSES if args.only or tier == "thorough" or "quick" in h["props"].values()]
     if args.only:
         hs = [h for h in hs if any(o in h["name"] for o in args.only)]
     if not hs:
